@@ -295,6 +295,41 @@ fn run(case: &Case, out: &mut Out) {
                     None => out.viol("h2-h1-malformed", &format!("sozu accepted the header list but wrote a request a strict RFC 9112 reader refuses: {:?}", String::from_utf8_lossy(&bytes[..bytes.len().min(120)]))),
                 }
             }
+            "guard" => {
+                // one request built from a header list, through real kawa + HttpContext:
+                // does sozu forward it or answer 400?
+                let method = a[0].b().to_vec();
+                let hs: HL = a[1..].chunks(2).filter(|c| c.len() == 2).map(|c| (c[0].b().to_vec(), c[1].b().to_vec())).collect();
+                let mut raw = method.clone();
+                raw.extend_from_slice(b" / HTTP/1.1\r\nHost: x\r\n");
+                for (k, v) in &hs {
+                    raw.extend_from_slice(k);
+                    raw.extend_from_slice(b": ");
+                    raw.extend_from_slice(v);
+                    raw.extend_from_slice(b"\r\n");
+                }
+                raw.extend_from_slice(b"\r\n");
+                let mut kawa: K = Kawa::new(Kind::Request, kawa::Buffer::new(pool.checkout().unwrap()));
+                let mut ctx = new_ctx();
+                kawa.storage.space()[..raw.len()].copy_from_slice(&raw);
+                kawa.storage.fill(raw.len());
+                kawa::h1::parse(&mut kawa, &mut ctx);
+                let forwarded = !kawa.is_error() && kawa.is_main_phase();
+                out.obs(&[ts(if forwarded { "forward" } else { "refuse" })]);
+                if forwarded {
+                    // what is forwarded must be well-formed for a strict reader (head only)
+                    kawa.prepare(&mut kawa::h1::BlockConverter);
+                    let b = out_bytes(&kawa);
+                    let head_end = b.windows(4).position(|w| w == b"\r\n\r\n").map(|p| p + 2).unwrap_or(b.len());
+                    let lines_ok = b[..head_end].split(|c| *c == b'\n').skip(1).all(|l| {
+                        let l = l.strip_suffix(b"\r").unwrap_or(l);
+                        l.is_empty() || parse_field(l).is_some()
+                    });
+                    if !lines_ok {
+                        out.viol("h1-malformed", &format!("{}: a forwarded field line is not `token: value`", malformed_reason(&b)));
+                    }
+                }
+            }
             "h1" => {
                 let raw = a[0].b().to_vec();
                 out.obs(&summary(&raw));
